@@ -372,14 +372,14 @@ var sharedRules = map[string][]string{
 	"C04": {"C02/HND-AGREE", "C11/REP-RAWSLICE", "C12/REP-DEFTYPE", "C12/REP-DEFCONV"},
 	"C05": {"C02/HND-AGREE", "C06/LAY-SHAPE", "C06/LAY-TARGET"},
 	"C06": {"C07/PAR-RESIZE", "C02/PEEP-DEPTH", "C02/PEEP-SPLIT", "C02/PEEP-GLUE", "C02/PEEP-MEASURED", "C02/PEEP-BOUND", "C02/HND-AGREE"},
-	"C07": {"C06/LAY-SHAPE", "C06/LAY-TARGET", "C06/LAY-REWRITE", "C02/PEEP-MEASURED", "C02/PEEP-DEPTH", "C09/FRM-CHECKS", "C09/FRM-VARIADIC", "C09/LAY-FUNC", "C09/FRM-INVOKE", "C09/FRM-PARAMSLOT", "C15/LOAD-SLOTS"},
+	"C07": {"C06/LAY-SHAPE", "C06/LAY-TARGET", "C06/LAY-REWRITE", "C02/PEEP-MEASURED", "C02/PEEP-DEPTH", "C09/FRM-CHECKS", "C09/FRM-VARIADIC", "C09/LAY-FUNC", "C09/FRM-INVOKE", "C09/FRM-PARAMSLOT", "C09/FRM-METHOD", "C15/LOAD-SLOTS"},
 	"C09": {"C02/HND-AGREE", "C07/PAR-RESIZE", "C07/FRM-PAIR", "C07/INS-PATCH", "C07/PAR-GLOBALIDX", "C07/LAY-DEPTH", "C07/PAR-ROLE"},
 	"C10": {"C02/HND-AGREE"},
 	"C11": {"C04/REP-TYPEDSTORE", "C02/HND-AGREE", "C07/LAY-DEPTH"},
 	"C16": {"C15/LOAD-SORT", "C08/SCO-ORDER"},
 	"C19": {"C12/REP-STRUCT", "C11/REP-STACKESCAPE", "C03/PAN-CONVERT", "C20/BT-ORDER"},
 	"C20": {"C08/SCO-SWAP"}, "C08": {"C09/FRM-PARAMSLOT"},
-	"C17": {"C08/SCO-ORDER"}, "C12": {"C04/REP-TYPEDSTORE", "C02/HND-AGREE", "C08/SCO-ORDER"},
+	"C17": {"C08/SCO-ORDER", "C09/FRM-METHOD"}, "C12": {"C04/REP-TYPEDSTORE", "C02/HND-AGREE", "C08/SCO-ORDER"},
 }
 
 func withShared(pd *propDef) *propDef {
